@@ -103,7 +103,8 @@ namespace BitSerializer::Convert::Detail
 			if constexpr (TDivRatio::num == 1)
 			{
 				const auto v = static_cast<TTargetRep>(static_cast<TOpRep>(duration.count()) / static_cast<TOpRep>(TDivRatio::den));
-				if (static_cast<TRep>(static_cast<TOpRep>(v) * static_cast<TOpRep>(TDivRatio::den)) != duration.count()) {
+				if (static_cast<TRep>(static_cast<TOpRep>(v) * static_cast<TOpRep>(TDivRatio::den)) != duration.count() ||
+					(duration.count() > 0 && v < 0) || (duration.count() < 0 && v > 0)) {
 					throw std::out_of_range("Precision of target duration is not enough");
 				}
 				return TTarget(v);
